@@ -226,7 +226,7 @@ def match_known(violation, known):
 def _spawn_workers(prop, tier, seed, camp_name, nworkers, deadline_s, outdir):
     procs = []
     for w in range(nworkers):
-        out = os.path.join(outdir, "%s.%s.%d.json" % (prop, camp_name, w))
+        out = os.path.join(outdir, "%s.%s.%d.json" % (prop, camp_name.replace("/", "_"), w))
         env = dict(os.environ)
         offset = int(os.environ.get("VERIF_HASHSEED_OFFSET", "0"))
         env["PYTHONHASHSEED"] = str((w % HASHSEED_CLASSES) + offset)
@@ -294,7 +294,7 @@ def merge(results):
 def write_replay(prop, violation):
     meta = violation["case"]["_meta"]
     os.makedirs(os.path.join(HERE, "replays"), exist_ok=True)
-    name = "%s-%s-%d-%d-%s.json" % (prop, meta["campaign"], meta["seed"], meta["index"],
+    name = "%s-%s-%d-%d-%s.json" % (prop, meta["campaign"].replace("/", "_"), meta["seed"], meta["index"],
                                    "".join(ch if ch.isalnum() else "_" for ch in violation["kind"])[:40])
     path = os.path.join(HERE, "replays", name)
     doc = {"property": violation["property"], "kind": violation["kind"], "facts": violation["facts"],
